@@ -214,6 +214,10 @@ class FrontierOracle(Oracle):
                     sim.violate("c11.helper", "read:get_max_withdraw_amount:exceeds_supplied", token=t, helper=str(v), supplied=fstr(bal), collateral=st0.sup[t][1], debt=fstr(ref.total_debt(st0, bar)))
             elif view == "get_max_borrow_amount":
                 sim.count("probe:helper_borrow_read")
+                # "helper amounts are themselves accepted": an amount below zero never is (the helper's answer to "nothing
+                # more can be borrowed" is 0)
+                if ref.total_coll(st0, bar) > 0 and v is not None and v == v and v < 0:
+                    sim.violate("c11.helper", "read:get_max_borrow_amount:negative", token=t, helper=str(v), debt=fstr(ref.total_debt(st0, bar)))
             elif view in ("health_factor", "max_ltv", "liquidation_threshold"):
                 self._figures(sim, f"read:{view}")
             return
@@ -342,7 +346,7 @@ ASSUMPTIONS = [
     "three-valued frontier: requests within a relative 1e-9 band of a limit (balance, LTV cover, HF = 1) may be accepted or rejected",
     "weighted max-LTV and liquidation threshold are only checked for accounts with collateral (undefined otherwise)",
     "enabling the collateral flag on a token whose risk parameters forbid collateral use is not judged (the property does not say)",
-    "zero and negative amounts, requests on tokens that are not supplied, and helper amounts <= 0 are not judged",
+    "zero and negative request amounts and requests on tokens that are not supplied are not judged; a helper amount of 0 (nothing can be borrowed / withdrawn) is not submitted as a request, a helper amount below 0 is a violation",
     "HF >= 1 is demanded after accepted borrow, collateral withdrawal and collateral-flag removal (the operations that can lower it)",
     "helper checks ('accepted', 'never exceeds what is supplied') apply to accounts with collateral value > 0; a withdraw helper read while HF < 1 is only held to 'not more than supplied'",
 ]
